@@ -36,66 +36,209 @@ Proof.
   fold r in Hdm. lia.
 Qed.
 
-Section FirstBranch.
-Variables (t b : Z) (left : bool) (l0 : list Z) (rest : list (list Z)).
-Hypothesis Ht : 1 <= t.
-Hypothesis Hb : t + 1 < b <= 62.
-Hypothesis Hnorm : Forall (in_range b) l0.      (* the first limb is a balanced digit *)
+(* ---- the integer a column of limbs denotes ---- *)
+Lemma limbs_int_app b l d : limbs_int b (l ++ [d]) = limbs_int b l * 2 ^ b + d.
+Proof. unfold limbs_int. rewrite fold_left_app. reflexivity. Qed.
 
-Let n2 := 2 ^ t.
-Let d := b - t.
-
-Theorem mod_switch_first_branch :
-  exists res, mod_switch_2n n2 b left (l0 :: rest) = Some res /\ length res = length l0 /\
-    forall i, (i < length l0)%nat ->
-      let sx := if left then - nthZ l0 i else nthZ l0 i in
-      nthZ res i = (sx + 2 ^ (d - 1)) / 2 ^ d /\
-      Z.abs (nthZ res i * 2 ^ d - sx) <= 2 ^ (d - 1) /\
-      - 2 ^ (t - 1) <= nthZ res i <= 2 ^ (t - 1).
+Lemma firstn_succ_nth (l : list Z) j : (j < length l)%nat -> firstn (S j) l = firstn j l ++ [nthZ l j].
 Proof.
-  unfold mod_switch_2n. cbv zeta. unfold n2. rewrite ms_log2n_pow2 by exact Ht.
-  cbn [nth length Nat.eqb].
-  destruct (Z.ltb_spec (t + 1) b); [|lia].
-  replace (b - (t + 1 - 1)) with d by (unfold d; lia).
-  eexists. split; [reflexivity|]. split; [destruct left; rewrite ?map_length; reflexivity|].
-  intros i Hi. set (sx := if left then - nthZ l0 i else nthZ l0 i).
-  assert (Hx : in_range b (nthZ l0 i)) by (apply Forall_nthZ; auto).
-  unfold in_range in Hx.
-  assert (Hb62 : 2 ^ (b - 1) <= 2 ^ 61) by (apply Z.pow_le_mono_r; lia).
-  assert (H62 : 2 ^ 62 = 2 * 2 ^ 61) by reflexivity.
-  assert (Hsx : Z.abs sx <= 2 ^ (b - 1)) by (unfold sx; destruct left; lia).
-  assert (Hval : nthZ (map (fun x => div_round_by_pow2 x d) (if left then map (wneg 64) l0 else l0)) i
-                 = (sx + 2 ^ (d - 1)) / 2 ^ d).
-  { rewrite nthZ_map by (destruct left; rewrite ?map_length; auto).
-    assert (Hin : nthZ (if left then map (wneg 64) l0 else l0) i = sx).
-    { unfold sx. destruct left; [|reflexivity]. rewrite nthZ_map by auto.
-      unfold wneg. apply wrap_id; [lia|]. unfold in_range.
-      assert (2 ^ (64 - 1) = 4 * 2 ^ 61) by reflexivity. lia. }
-    rewrite Hin. apply div_round_by_pow2_spec; [unfold d; lia | lia]. }
-  rewrite Hval. split; [reflexivity|]. split; [apply round_bounds; unfold d; lia|].
-  assert (Hd1 : 1 <= d) by (unfold d; lia).
-  pose proof (pow2_split d Hd1) as Hs. pose proof (pow2_pos (d - 1) ltac:(lia)) as Hp.
-  assert (Hbt : 2 ^ (b - 1) = 2 ^ (t - 1) * 2 ^ d).
-  { rewrite <- Z.pow_add_r by lia. f_equal. unfold d. lia. }
-  pose proof (pow2_pos (t - 1) ltac:(lia)) as Hpt.
-  split.
-  - apply Z.div_le_lower_bound; [lia|]. nia.
-  - apply Z.lt_succ_r. apply Z.div_lt_upper_bound; [lia|]. nia.
+  revert j. induction l as [|h t IH]; intros j Hj; cbn [length] in Hj; [lia|].
+  destruct j as [|j]; [reflexivity|]. cbn [firstn app]. unfold nthZ. cbn [nth]. f_equal. apply IH. lia.
 Qed.
 
-End FirstBranch.
+Lemma limbs_int_bound b (l : list Z) : 1 <= b ->
+  Forall (fun d => Z.abs d <= 2 ^ (b - 1)) l -> Z.abs (limbs_int b l) <= 2 ^ (Z.of_nat (length l) * b) - 1.
+Proof.
+  intros Hb. induction l as [|d t IH] using rev_ind; intros H.
+  - cbn. lia.
+  - apply Forall_app in H. destruct H as [Ht Hd]. inversion Hd as [|? ? Hd1 _]; subst.
+    rewrite limbs_int_app, app_length. cbn [length]. specialize (IH Ht).
+    replace (Z.of_nat (length t + 1) * b) with (Z.of_nat (length t) * b + b) by lia.
+    rewrite Z.pow_add_r by lia.
+    pose proof (pow2_split b Hb) as Hs. pose proof (pow2_pos (b - 1) ltac:(lia)) as Hp.
+    pose proof (pow2_pos (Z.of_nat (length t) * b) ltac:(lia)) as Hq.
+    set (V := limbs_int b t) in *. set (P := 2 ^ (Z.of_nat (length t) * b)) in *. set (H2 := 2 ^ (b - 1)) in *.
+    assert (Z.abs (V * 2 ^ b) <= (P - 1) * 2 ^ b) by (rewrite Z.abs_mul, (Z.abs_eq (2 ^ b)) by lia; nia).
+    lia.
+Qed.
 
-(* the rule the oracle checks (Model/C14Oracle.v: ms_ok), for every radix *)
-Definition mod_switch_rule_full : Prop :=
-  forall (n2 b : Z) (left : bool) (ls : list (list Z)) (res : list Z),
-    normalized_limbs b ls = true -> mod_switch_2n n2 b left ls = Some res -> ms_ok n2 b left ls res = true.
+Lemma Forall_firstn_g {A} (P : A -> Prop) (k : nat) (l : list A) : Forall P l -> Forall P (firstn k l).
+Proof.
+  revert k; induction l as [|h t IH]; intros [|k] H; cbn [firstn]; auto.
+  inversion H; subst. constructor; auto.
+Qed.
 
-(* false in the second branch: 2N*ext = 16, radix 5 (= log2(16) + 1), limb -8 (torus value -1/4), Right:
-   the result is -8 (torus -1/2 on Z_16) instead of -4 *)
-Theorem mod_switch_small_radix_refuted :
-  exists (n2 b : Z) (left : bool) (ls : list (list Z)) (res : list Z),
-    normalized_limbs b ls = true /\ mod_switch_2n n2 b left ls = Some res /\ ms_ok n2 b left ls res = false.
-Proof. exists 16, 5, false, [[-8; 0]], [-8; 0]. vm_compute. auto. Qed.
+Section ModSwitch.
+Variables (t b : Z) (left : bool) (ls : list (list Z)) (w : nat).
+Hypothesis Ht : 1 <= t <= 61.
+Hypothesis Hb : 1 <= b <= 62.
+Hypothesis Hne : (0 < length ls)%nat.
+Hypothesis Hw : Forall (fun l : list Z => length l = w) ls.
+Hypothesis Hnorm : Forall (Forall (in_range b)) ls.        (* every limb is a balanced digit *)
+
+Let sg (x : Z) : Z := if left then - x else x.
+Let sg64 (x : Z) : Z := if left then wneg 64 x else x.
+Let col (i : nat) : list Z := map (fun l => sg (nthZ l i)) ls.
+Let step (res : list Z) (j : nat) : list Z := map2 (fun x y => wadd 64 (shl 64 y b) (sg64 x)) (nth j ls []) res.
+Let res1 : list Z := if left then map (wneg 64) (nth 0 ls []) else nth 0 ls [].
+
+Lemma limb_len j : (j < length ls)%nat -> length (nth j ls []) = w.
+Proof. intros Hj. rewrite Forall_forall in Hw. apply Hw. apply nth_In. exact Hj. Qed.
+Lemma limb_range j i : (j < length ls)%nat -> (i < w)%nat -> in_range b (nthZ (nth j ls []) i).
+Proof.
+  intros Hj Hi. rewrite Forall_forall in Hnorm. pose proof (Hnorm _ (nth_In ls [] Hj)) as H.
+  apply Forall_nthZ; [exact H | rewrite limb_len; auto].
+Qed.
+Lemma sg64_exact j i : (j < length ls)%nat -> (i < w)%nat -> sg64 (nthZ (nth j ls []) i) = sg (nthZ (nth j ls []) i).
+Proof.
+  intros Hj Hi. unfold sg64, sg. destruct left; [|reflexivity].
+  pose proof (limb_range j i Hj Hi) as [H1 H2].
+  assert (2 ^ (b - 1) <= 2 ^ 61) by (apply Z.pow_le_mono_r; lia).
+  unfold wneg. apply wrap_id; [lia|]. unfold in_range. assert (2 ^ (64 - 1) = 4 * 2 ^ 61) by reflexivity. lia.
+Qed.
+Lemma col_length i : length (col i) = length ls.
+Proof. apply map_length. Qed.
+Lemma col_nth i j : (j < length ls)%nat -> nthZ (col i) j = sg (nthZ (nth j ls []) i).
+Proof. intros Hj. unfold col, nthZ at 1. rewrite (nth_indep _ 0 (sg (nthZ [] i))) by (rewrite map_length; auto). rewrite (map_nth (fun l => sg (nthZ l i))). reflexivity. Qed.
+Lemma col_digits i : (i < w)%nat -> Forall (fun d => Z.abs d <= 2 ^ (b - 1)) (col i).
+Proof.
+  intros Hi. apply Forall_of_nthZ. intros j Hj. rewrite col_length in Hj. rewrite col_nth by auto.
+  pose proof (limb_range j i Hj Hi) as [H1 H2]. unfold sg. destruct left; lia.
+Qed.
+
+Lemma fold_acc (k : nat) : (k < length ls)%nat -> (Z.of_nat k + 1) * b <= 62 ->
+  length (fold_left step (seq 1 k) res1) = w /\
+  forall i, (i < w)%nat -> nthZ (fold_left step (seq 1 k) res1) i = limbs_int b (firstn (S k) (col i)).
+Proof.
+  induction k as [|k IH]; intros Hk Hkb.
+  - cbn [seq fold_left]. split.
+    + unfold res1. destruct left; rewrite ?map_length; apply limb_len; auto.
+    + intros i Hi. rewrite firstn_succ_nth by (rewrite col_length; auto). cbn [firstn app].
+      rewrite col_nth by auto. unfold limbs_int. cbn [fold_left]. rewrite Z.mul_0_l, Z.add_0_l.
+      rewrite <- sg64_exact by auto. unfold res1, sg64. destruct left; [|reflexivity].
+      apply nthZ_map. rewrite limb_len; auto.
+  - destruct (IH ltac:(lia) ltac:(lia)) as [HL HV].
+    rewrite seq_S, fold_left_app. cbn [fold_left Nat.add].
+    set (r := fold_left step (seq 1 k) res1) in *.
+    assert (Hll : length (nth (S k) ls []) = w) by (apply limb_len; auto).
+    split; [unfold step, map2; rewrite map_length, combine_length; lia|].
+    intros i Hi. unfold step, map2.
+    set (h := fun p : Z * Z => wadd 64 (shl 64 (snd p) b) (sg64 (fst p))).
+    unfold nthZ at 1. rewrite (nth_indep _ 0 (h (0, 0))) by (rewrite map_length, combine_length; lia).
+    rewrite (map_nth h). rewrite combine_nth by lia. unfold h. cbn [fst snd].
+    fold (nthZ (nth (S k) ls []) i). fold (nthZ r i).
+    rewrite HV by auto. rewrite sg64_exact by auto.
+    rewrite (firstn_succ_nth (col i) (S k)) by (rewrite col_length; auto).
+    rewrite limbs_int_app, col_nth by auto.
+    set (V := limbs_int b (firstn (S k) (col i))).
+    assert (HVb : Z.abs V <= 2 ^ (Z.of_nat (S k) * b) - 1).
+    { pose proof (limbs_int_bound b (firstn (S k) (col i)) ltac:(lia)
+                    ltac:(apply Forall_firstn_g; apply col_digits; auto)) as H.
+      rewrite firstn_length, col_length in H. replace (Nat.min (S k) (length ls)) with (S k) in H by lia. exact H. }
+    pose proof (limb_range (S k) i Hk Hi) as [Hd1 Hd2].
+    set (d := sg (nthZ (nth (S k) ls []) i)).
+    assert (Hd : Z.abs d <= 2 ^ (b - 1)) by (unfold d, sg; destruct left; lia).
+    assert (Hb61 : 2 ^ (b - 1) <= 2 ^ 61) by (apply Z.pow_le_mono_r; lia).
+    assert (Hp : 2 ^ (Z.of_nat (S k) * b) * 2 ^ b <= 2 ^ 62).
+    { rewrite <- Z.pow_add_r by lia. apply Z.pow_le_mono_r; lia. }
+    pose proof (pow2_pos b ltac:(lia)) as Hpb. pose proof (pow2_pos (Z.of_nat (S k) * b) ltac:(lia)) as Hpk.
+    assert (HVs : Z.abs (V * 2 ^ b) <= 2 ^ 62 - 1) by (rewrite Z.abs_mul, (Z.abs_eq (2 ^ b)) by lia; nia).
+    assert (H62 : 2 ^ 62 = 2 * 2 ^ 61) by reflexivity. assert (H63 : 2 ^ (64 - 1) = 4 * 2 ^ 61) by reflexivity.
+    unfold wadd, shl. rewrite (wrap_id 64 (V * 2 ^ b)) by (unfold in_range; lia).
+    apply wrap_id; [lia|]. unfold in_range. lia.
+Qed.
+
+Let size := Z.min (div_ceil (t + 1) b) (Z.of_nat (length ls)).
+Let tot := size * b.
+Hypothesis Htot : tot <= 62.
+
+Lemma size_pos : 1 <= size <= Z.of_nat (length ls).
+Proof.
+  unfold size, div_ceil. assert (1 <= (t + 1 + b - 1) / b) by (apply Z.div_le_lower_bound; lia). lia.
+Qed.
+
+(* both branches: the first `size` limbs, direction sign applied, are rounded to t = log2(2N ext) bits (ties up);
+   a ciphertext with fewer limbs than t bits is zero-extended *)
+Theorem mod_switch_rounds :
+  exists res, mod_switch_2n (2 ^ t) b left ls = Some res /\ length res = w /\
+    forall i, (i < w)%nat ->
+      let A := limbs_int b (firstn (Z.to_nat size) (col i)) in
+      nthZ res i = (if t <? tot then (A + 2 ^ (tot - t - 1)) / 2 ^ (tot - t) else A * 2 ^ (t - tot)) /\
+      Z.abs (nthZ res i * 2 ^ tot - A * 2 ^ t) <= 2 ^ (tot - 1) /\
+      Z.abs (nthZ res i) <= 2 ^ t.
+Proof.
+  pose proof size_pos as Hsz.
+  assert (Hfinal : forall (acc : list Z), length acc = w ->
+            (forall i, (i < w)%nat -> nthZ acc i = limbs_int b (firstn (Z.to_nat size) (col i))) ->
+            let res := if t <? tot then map (fun x => div_round_by_pow2 x (tot - t)) acc else map (fun x => shl 64 x (t - tot)) acc in
+            length res = w /\ forall i, (i < w)%nat ->
+              let A := limbs_int b (firstn (Z.to_nat size) (col i)) in
+              nthZ res i = (if t <? tot then (A + 2 ^ (tot - t - 1)) / 2 ^ (tot - t) else A * 2 ^ (t - tot)) /\
+              Z.abs (nthZ res i * 2 ^ tot - A * 2 ^ t) <= 2 ^ (tot - 1) /\
+              Z.abs (nthZ res i) <= 2 ^ t).
+  { intros acc Hl Hv. cbv zeta. split; [destruct (t <? tot); rewrite map_length; exact Hl|].
+    intros i Hi. set (A := limbs_int b (firstn (Z.to_nat size) (col i))).
+    assert (HA : Z.abs A <= 2 ^ tot - 1).
+    { pose proof (limbs_int_bound b (firstn (Z.to_nat size) (col i)) ltac:(lia)
+                    ltac:(apply Forall_firstn_g; apply col_digits; auto)) as H.
+      rewrite firstn_length, col_length in H.
+      replace (Z.of_nat (Nat.min (Z.to_nat size) (length ls)) * b) with tot in H by (unfold tot; lia). exact H. }
+    assert (Htp : 2 ^ tot <= 2 ^ 62) by (apply Z.pow_le_mono_r; lia).
+    assert (Htot1 : 1 <= tot) by (unfold tot; nia).
+    pose proof (pow2_pos tot ltac:(lia)) as Hpt.
+    destruct (Z.ltb_spec t tot) as [Hlt|Hge].
+    - rewrite nthZ_map by (rewrite Hl; auto). rewrite Hv by auto. fold A.
+      rewrite div_round_by_pow2_spec by lia.
+      replace (tot - t - 1) with ((tot - t) - 1) by lia.
+      split; [reflexivity|].
+      pose proof (round_bounds A (tot - t) ltac:(lia)) as Hr. cbv zeta in Hr.
+      set (r := (A + 2 ^ (tot - t - 1)) / 2 ^ (tot - t)) in *.
+      assert (E1 : 2 ^ tot = 2 ^ (tot - t) * 2 ^ t) by (rewrite <- Z.pow_add_r by lia; f_equal; lia).
+      assert (E2 : 2 ^ (tot - 1) = 2 ^ (tot - t - 1) * 2 ^ t) by (rewrite <- Z.pow_add_r by lia; f_equal; lia).
+      pose proof (pow2_pos t ltac:(lia)) as Hp2.
+      pose proof (pow2_pos (tot - t) ltac:(lia)) as Hpd. pose proof (pow2_split (tot - t) ltac:(lia)) as Hsd.
+      replace (tot - t - 1) with ((tot - t) - 1) in * by lia.
+      split.
+      + rewrite E1, E2. replace (r * (2 ^ (tot - t) * 2 ^ t) - A * 2 ^ t) with ((r * 2 ^ (tot - t) - A) * 2 ^ t) by ring.
+        rewrite Z.abs_mul, (Z.abs_eq (2 ^ t)) by lia. nia.
+      + rewrite E1 in HA. set (D := 2 ^ (tot - t)) in *. set (T := 2 ^ t) in *. set (Hh := 2 ^ (tot - t - 1)) in *.
+        assert (Z.abs (r * D) <= D * T - 1 + Hh) by lia.
+        rewrite Z.abs_mul, (Z.abs_eq D) in H by lia. nia.
+    - rewrite nthZ_map by (rewrite Hl; auto). rewrite Hv by auto. fold A.
+      assert (E1 : 2 ^ t = 2 ^ (t - tot) * 2 ^ tot) by (rewrite <- Z.pow_add_r by lia; f_equal; lia).
+      pose proof (pow2_pos (t - tot) ltac:(lia)) as Hp2.
+      assert (Ht61 : 2 ^ t <= 2 ^ 61) by (apply Z.pow_le_mono_r; lia).
+      assert (HAs : Z.abs (A * 2 ^ (t - tot)) <= 2 ^ 61) by (rewrite Z.abs_mul, (Z.abs_eq (2 ^ (t - tot))) by lia; nia).
+      unfold shl. rewrite wrap_id by (unfold in_range; assert (2 ^ (64 - 1) = 4 * 2 ^ 61) by reflexivity; lia).
+      split; [reflexivity|]. split.
+      + replace (A * 2 ^ (t - tot) * 2 ^ tot - A * 2 ^ t) with 0 by (rewrite E1; ring).
+        cbn [Z.abs]. pose proof (pow2_pos (tot - 1) ltac:(lia)). lia.
+      + rewrite Z.abs_mul, (Z.abs_eq (2 ^ (t - tot))) by lia. rewrite E1. nia. }
+  unfold mod_switch_2n. cbv zeta. rewrite ms_log2n_pow2 by lia.
+  destruct (Nat.eqb_spec (length ls) 0); [lia|].
+  replace (t + 1 - 1) with t by lia.
+  destruct (Z.ltb_spec (t + 1) b) as [Hbr|Hbr].
+  - (* first branch: one limb *)
+    assert (Hs1 : size = 1).
+    { unfold size, div_ceil. replace ((t + 1 + b - 1) / b) with 1; [lia|].
+      apply (Z.div_unique_pos (t + 1 + b - 1) b 1 t); lia. }
+    assert (Htb : tot = b) by (unfold tot; lia).
+    destruct (fold_acc 0 ltac:(lia) ltac:(lia)) as [HL HV]. cbn [seq fold_left] in HL, HV.
+    pose proof (Hfinal res1 HL ltac:(intros i Hi; rewrite Hs1; apply HV; exact Hi)) as HF. cbv zeta in HF.
+    fold res1. replace (b - t) with (tot - t) by lia.
+    revert HF. destruct (Z.ltb_spec t tot) as [_|Hbad]; [|lia]. intros HF.
+    eexists. split; [reflexivity|]. exact HF.
+  - set (k := (Z.to_nat size - 1)%nat).
+    assert (Hk : (k < length ls)%nat) by (unfold k; lia).
+    destruct (fold_acc k Hk ltac:(unfold k, tot in *; lia)) as [HL HV].
+    fold size. fold k. fold res1. fold tot.
+    change (fun (res : list Z) (i : nat) => map2 (fun x y : Z => wadd 64 (shl 64 y b) (if left then wneg 64 x else x)) (nth i ls []) res) with step.
+    pose proof (Hfinal (fold_left step (seq 1 k) res1) HL
+                  ltac:(intros i Hi; replace (Z.to_nat size) with (S k) by (unfold k; lia); apply HV; exact Hi)) as HF.
+    cbv zeta in HF. eexists. split; [reflexivity|]. exact HF.
+Qed.
+
+End ModSwitch.
 
 (* ------------------------------------------------------------------ set_xai_plus_y *)
 Lemma nthZ_zeros' s u : nthZ (zeros s) u = 0.
